@@ -241,12 +241,175 @@ class Interp:
         r = self.option_combinators(cs, args, d)
         if r is not None:
             return r
+        r = self.list_models(cs, args, d)
+        if r is not None:
+            return r
+        r = self.str_models(cs, args, d)
+        if r is not None:
+            return r
+        if fn == "core::bool::<impl bool>::then_some" and d and d[0].k == "bool" and len(args) > 1:
+            return some(args[1]) if d[0].v else NONE_V
+        if fn == "core::bool::<impl bool>::then" and d and d[0].k == "bool" and len(args) > 1:
+            return some(self.call_closure(cs, args[1], [])) if d[0].v else NONE_V
         if cs.is_("core::option::Option::is_none") and d and d[0].k in ("variant", "adt"):
             nm = d[0].v if d[0].k == "variant" else d[0].extra[1]
             return vbool(nm == "None")
         if cs.is_("core::option::Option::is_some") and d and d[0].k in ("variant", "adt"):
             nm = d[0].v if d[0].k == "variant" else d[0].extra[1]
             return vbool(nm == "Some")
+        return None
+
+    # ---------------------------------------------------------------- concrete lists and iterator chains
+    def stateful_call(self, env, cs, args):
+        """models that update the value behind a `&mut` argument: Iterator::next on a concrete iterator, Vec::push/append"""
+        if not args or args[0].k != "ref" or not (isinstance(args[0].extra, tuple) and args[0].extra and args[0].extra[0] == "place"):
+            return None
+        fn = cs.fn or ""
+        tgt = args[0].extra[1]
+        cur = env.get(tgt, UNKNOWN)
+        while cur.k == "ref" and isinstance(cur.extra, tuple) and cur.extra and cur.extra[0] == "place":
+            tgt = cur.extra[1]
+            cur = env.get(tgt, UNKNOWN)
+        if fn == "core::iter::traits::iterator::Iterator::next" and cur.k == "iter":
+            if cur.v:
+                env[tgt] = Val("iter", list(cur.v[1:]))
+                return some(cur.v[0])
+            return NONE_V
+        if fn == "alloc::vec::Vec::push" and cur.k == "list" and len(args) > 1:
+            env[tgt] = Val("list", list(cur.v) + [args[1]])
+            return UNIT
+        if fn == "alloc::vec::Vec::append" and cur.k == "list" and len(args) > 1 and args[1].deref().k == "list":
+            env[tgt] = Val("list", list(cur.v) + list(args[1].deref().v))
+            return UNIT
+        if fn == "alloc::vec::Vec::pop" and cur.k == "list":
+            if cur.v:
+                env[tgt] = Val("list", list(cur.v[:-1]))
+                return some(cur.v[-1])
+            return NONE_V
+        return None
+
+    def list_models(self, cs, args, d):
+        fn = cs.fn or ""
+        m = fn.rsplit("::", 1)[-1]
+        if not d:
+            if fn == "alloc::vec::Vec::new":
+                return Val("list", [])
+            return None
+        a = d[0]
+        if a.k == "list":
+            by_ref = args[0].k == "ref"
+            if fn in ("core::slice::<impl [T]>::iter", "core::slice::<impl [T]>::iter_mut"):
+                return Val("iter", [Val("ref", x) for x in a.v])
+            if fn == "core::iter::traits::collect::IntoIterator::into_iter":
+                return Val("iter", [Val("ref", x) for x in a.v] if by_ref else list(a.v))
+            if fn == "core::slice::<impl [T]>::first":
+                return some(Val("ref", a.v[0])) if a.v else NONE_V
+            if fn == "core::slice::<impl [T]>::last":
+                return some(Val("ref", a.v[-1])) if a.v else NONE_V
+            if m == "len" and fn.startswith(("core::slice::", "alloc::vec::Vec::")):
+                return vint(len(a.v))
+            if m == "is_empty" and fn.startswith(("core::slice::", "alloc::vec::Vec::")):
+                return vbool(not a.v)
+            if fn in ("alloc::vec::Vec::as_slice", "alloc::slice::<impl [T]>::to_vec"):
+                return a
+            if fn == "core::slice::<impl [T]>::contains" and len(d) > 1 and d[1].k in ("str", "int", "variant", "bool"):
+                known = [x.deref() for x in a.v]
+                if all(x.k == d[1].k for x in known):
+                    return vbool(any(x.v == d[1].v for x in known))
+            return None
+        if a.k != "iter" or not fn.startswith("core::iter::traits::"):
+            return None
+        items = list(a.v)
+        f = args[1] if len(args) > 1 else None
+        if fn == "core::iter::traits::collect::IntoIterator::into_iter":
+            return a
+        if m == "map":
+            return Val("iter", [self.call_closure(cs, f, [x]) for x in items])
+        if m in ("filter", "find", "position", "any", "all", "take_while", "skip_while"):
+            flags = []
+            for x in items:
+                r = self.call_closure(cs, f, [Val("ref", x) if m in ("filter", "find", "take_while", "skip_while") else x]).deref()
+                if r.k != "bool":
+                    return UNKNOWN
+                flags.append(r.v)
+            if m == "filter":
+                return Val("iter", [x for x, k in zip(items, flags) if k])
+            if m == "find":
+                hit = [x for x, k in zip(items, flags) if k]
+                return some(hit[0]) if hit else NONE_V
+            if m == "position":
+                hit = [i for i, k in enumerate(flags) if k]
+                return some(vint(hit[0])) if hit else NONE_V
+            if m == "any":
+                return vbool(any(flags))
+            if m == "all":
+                return vbool(all(flags))
+            return None
+        if m in ("filter_map", "find_map"):
+            out = []
+            for x in items:
+                r = self.call_closure(cs, f, [x]).deref()
+                nm = r.v if r.k == "variant" else (r.extra[1] if r.k == "adt" and r.extra else None)
+                if nm == "Some":
+                    if m == "find_map":
+                        return r
+                    out.append(r.v[0])
+                elif nm != "None":
+                    return UNKNOWN
+            return NONE_V if m == "find_map" else Val("iter", out)
+        if m in ("cloned", "copied"):
+            return Val("iter", [x.deref() for x in items])
+        if m == "rev":
+            return Val("iter", items[::-1])
+        if m == "chain" and len(d) > 1 and d[1].k in ("iter", "list"):
+            return Val("iter", items + list(d[1].v))
+        if m == "count":
+            return vint(len(items))
+        if m == "last":
+            return some(items[-1]) if items else NONE_V
+        if m == "collect":
+            dty = self.body.local_ty(cs.dest["l"]) if cs.dest is not None else ""
+            if dty.startswith("core::result::Result<"):
+                vals = []
+                for x in items:
+                    y = x.deref()
+                    nm = y.extra[1] if y.k == "adt" and y.extra else None
+                    if nm == "Ok":
+                        vals.append(y.v[0])
+                    elif nm == "Err":
+                        return y
+                    else:
+                        return UNKNOWN
+                return Val("adt", [Val("list", vals)], ("core::result::Result", "Ok"))
+            if "Vec<" in dty or "HashSet<" in dty or "BTreeSet<" in dty:
+                return Val("list", items)
+            return None
+        return None
+
+    def str_models(self, cs, args, d):
+        fn = cs.fn or ""
+        if not fn.startswith(("core::str::<impl str>::", "alloc::str::<impl str>::", "alloc::string::String::")) or not d or d[0].k != "str":
+            return None
+        m = fn.rsplit("::", 1)[-1]
+        s0 = d[0].v
+        p = d[1] if len(d) > 1 else None
+        pv = p.v if p is not None and p.k in ("str", "char") else None
+        if m == "starts_with" and pv is not None:
+            return vbool(s0.startswith(pv))
+        if m == "ends_with" and pv is not None:
+            return vbool(s0.endswith(pv))
+        if m == "trim_start_matches" and pv:
+            while s0.startswith(pv):
+                s0 = s0[len(pv):]
+            return vstr(s0)
+        if m == "strip_prefix" and pv is not None:
+            return some(vstr(s0[len(pv):])) if s0.startswith(pv) else NONE_V
+        if m == "is_empty":
+            return vbool(s0 == "")
+        if m in ("as_str", "trim") :
+            return vstr(s0.strip() if m == "trim" else s0)
+        if m == "contains" and pv is not None:
+            return vbool(pv in s0)
         return None
 
     # ---------------------------------------------------------------- Option/Result combinators and closures
@@ -384,7 +547,9 @@ class Interp:
             elif k == "call":
                 cs = CallSite(body, bb, t)
                 args = [self.operand(env, a) for a in cs.args]
-                r = self.model_call(cs, args)
+                r = self.stateful_call(env, cs, args)
+                if r is None:
+                    r = self.model_call(cs, args)
                 if r is None:
                     r = Val("unknown", "ret:%s" % cs.name)
                 res.calls.append((cs, args, r))
@@ -411,6 +576,8 @@ class Interp:
         if k == "use":
             return self.operand(env, rv["op"])
         if k == "ref":
+            if rv.get("bk") == "mut" and not [e for e in rv["place"]["p"] if e != "*"]:
+                return Val("ref", self.read_place(env, rv["place"]), ("place", rv["place"]["l"]))
             return Val("ref", self.read_place(env, rv["place"]))
         if k == "discr":
             v = self.read_place(env, rv["place"]).deref()
